@@ -36,7 +36,8 @@ func (p pathDB) Path() string { return p.path }
 
 type Store = walstore.TendermintWALStore[starknet.Value, starknet.Hash, starknet.Address]
 
-const opDeadline = 20 * time.Second
+// generous: a slow machine must not look like a hang of the code under test
+const opDeadline = 180 * time.Second
 
 // openReal runs the real NewTendermintWALStore; panics and hangs are reported as errors.
 func openReal(dbPath string) (st Store, err error) {
